@@ -1,6 +1,9 @@
 import BigtoolsModel.Generated.Atoms
 import BigtoolsModel.Tiler2
 import BigtoolsModel.Sweep
+import BigtoolsModel.FView
+import BigtoolsModel.IndexerFix
+import BigtoolsModel.Chunker
 /-! The arithmetic and the branch conditions of the two zoom tilers (`process_val_zoom` in bigwigwrite.rs and
     bigbedwrite.rs), of the two coverage sweeps (the summary sweep in `process_val`, the zoom sweep in `process_val_zoom`),
     of the section cut and of the variable-step / fixed-step decoders are REGENERATED from the Rust source on every run
@@ -253,3 +256,150 @@ theorem gen_step_items (start step span i s : Nat) :
   · delta Gen.var_end; first | rfl | grind | omega
 
 end StepSections
+
+namespace FView
+
+/-- one `read` / `seek` of the view, assembled from the expressions of `file_view.rs` regenerated from the source
+    (the assertion `start ≤ new_pos ≤ end` of the `End` arm included) -/
+def stepViewGen (file : List Nat) (v : View) : Op → View × Out
+  | .read n =>
+    let k := Gen.fv_read_len n v.hi v.cur
+    ({ v with cur := v.cur + k }, .bytes ((file.drop v.cur).take k))
+  | .seek (.start k) =>
+    let p := Gen.fv_start_target v.lo v.hi k
+    ({ v with cur := p }, .pos (Gen.fv_rel p v.lo))
+  | .seek (.fromEnd d) =>
+    let p' : Nat := (Gen.fv_end_clamp (Gen.fv_end_pos v.hi (Gen.fv_end_offset d)) v.lo v.hi).toNat
+    if v.lo ≤ p' ∧ p' ≤ v.hi then ({ v with cur := p' }, .pos (Gen.fv_rel p' v.lo)) else (v, .panic)
+  | .seek (.current d) =>
+    let p : Nat := (Gen.fv_cur_clamp (Gen.fv_cur_pos v.cur d) v.lo v.hi).toNat
+    ({ v with cur := p }, .pos (Gen.fv_rel p v.lo))
+
+theorem gen_fv_atoms :
+    (∀ n hi cur, Gen.fv_read_len n hi cur = min n (hi - cur)) ∧
+    (∀ lo hi k, Gen.fv_start_target lo hi k = min hi (lo + k)) ∧
+    (∀ p lo, Gen.fv_rel p lo = p - lo) ∧
+    (∀ d, Gen.fv_end_offset d = min d 0) ∧
+    (∀ hi (d : Int), Gen.fv_end_pos hi d = (hi : Int) + d) ∧
+    (∀ (p : Int) lo hi, Gen.fv_end_clamp p lo hi = max p (lo : Int)) ∧
+    (∀ cur (d : Int), Gen.fv_cur_pos cur d = (cur : Int) + d) ∧
+    (∀ (p : Int) lo hi, lo ≤ hi → (Gen.fv_cur_clamp p lo hi).toNat = clampI p lo hi) := by
+  refine ⟨?_, ?_, ?_, ?_, ?_, ?_, ?_, ?_⟩ <;> intros <;>
+    delta Gen.fv_read_len Gen.fv_start_target Gen.fv_rel Gen.fv_end_offset Gen.fv_end_pos Gen.fv_end_clamp Gen.fv_cur_pos
+      Gen.fv_cur_clamp <;>
+    first
+    | rfl
+    | (unfold clampI; omega)
+    | omega
+    | grind
+
+/-- **FileView.** Reading and seeking assembled from the source's expressions is the model's `stepView` (repaired variant), for
+    every file, window, position and operation — `fileview_refines_slice` (C18) is about `stepView`. -/
+theorem gen_fileview_step (file : List Nat) (v : View) (op : Op) (hw : v.lo ≤ v.hi) :
+    stepViewGen file v op = stepView true file v op := by
+  obtain ⟨h1, h2, h3, h4, h5, h6, h7, h8⟩ := gen_fv_atoms
+  cases op with
+  | read n => simp only [stepViewGen, stepView, h1]
+  | seek w =>
+    cases w with
+    | start k => simp only [stepViewGen, stepView, h2, h3]
+    | fromEnd d => simp only [stepViewGen, stepView, h3, h4, h5, h6, if_true]
+    | current d => simp only [stepViewGen, stepView, h3, h7, h8 _ _ _ hw]
+
+end FView
+
+namespace IX
+
+/-- the bisection of `index_chroms` with its arithmetic taken from the source: the stop test, the probe, the "no line starts to
+    the right of the probe" test and the upper bounds handed to the three recursive calls -/
+def doIndexGen (f : File) : Nat → St → Nat → Option Nat → Nat → Option St
+  | 0, _, _, _, _ => none
+  | limit + 1, st, prevId, nextId, hi =>
+    match find st prevId with
+    | none => none
+    | some prev =>
+      if Gen.ix_stop prev.off hi 0 0 then some st else
+      let nextEnt := nextId.bind (find st)
+      let m := Gen.ix_probe prev.off hi 0 0
+      let tell := lineEndAfter 0 f m
+      if Gen.ix_nothing_right prev.off hi m tell then
+        doIndexGen f limit st prevId nextId (Gen.ix_retry_limit prev.off hi m tell)
+      else
+        match chromAt 0 f tell with
+        | none => some st
+        | some chrom =>
+          let (st1, currId) := insertAfter st prevId tell chrom
+          let left : Bool := decide (chrom ≠ prev.chrom)
+          let right : Bool := match nextEnt with
+            | some n => decide (chrom ≠ n.chrom)
+            | none => true
+          let st2 := if left then doIndexGen f limit st1 prevId (some currId) (Gen.ix_left_limit prev.off hi m tell) else some st1
+          st2.bind fun s => if right then doIndexGen f limit s currId nextId (Gen.ix_right_limit prev.off hi m tell) else some s
+
+theorem gen_ix_atoms (p hi m t x y : Nat) :
+    Gen.ix_stop p hi x y = decide (hi ≤ p + 1) ∧ Gen.ix_probe p hi x y = p + (hi - p - 1) / 2 ∧
+    Gen.ix_nothing_right p hi m t = decide (t ≥ hi) ∧ Gen.ix_retry_limit p hi m t = m + 1 ∧
+    Gen.ix_left_limit p hi m t = t ∧ Gen.ix_right_limit p hi m t = hi := by
+  delta Gen.ix_stop Gen.ix_probe Gen.ix_nothing_right Gen.ix_retry_limit Gen.ix_left_limit Gen.ix_right_limit
+  refine ⟨?_, ?_, ?_, ?_, ?_, ?_⟩ <;> first | rfl | omega | grind | (rw [Bool.eq_iff_iff]; atoms_norm; omega)
+
+/-- **Chromosome bisection.** `do_index` with the source's arithmetic is the model's repaired bisection `doIndexFixed` — the
+    function `index_is_first_line_of_every_run` (C18) is about — for every file, depth budget, list state and bounds. -/
+theorem gen_index_bisection (f : File) : ∀ (fuel : Nat) (st : St) (prevId : Nat) (nextId : Option Nat) (hi : Nat),
+    doIndexGen f fuel st prevId nextId hi = doIndexFixed f fuel st prevId nextId hi := by
+  intro fuel
+  induction fuel with
+  | zero => intros; rfl
+  | succ n ih =>
+    intro st prevId nextId hi
+    unfold doIndexGen doIndexFixed
+    cases hp : find st prevId with
+    | none => rfl
+    | some prev =>
+      have a := fun m t => gen_ix_atoms prev.off hi m t 0 0
+      simp only [(a 0 0).1, (a 0 0).2.1, fun m t => (a m t).2.2.1, fun m t => (a m t).2.2.2.1, fun m t => (a m t).2.2.2.2.1,
+        fun m t => (a m t).2.2.2.2.2, ih, decide_eq_true_eq]
+      first | rfl | (split <;> first | rfl | (split <;> first | rfl | (split <;> rfl)))
+
+end IX
+
+namespace CH
+
+/-- the chunking loop with the source's arithmetic: after the cut at the next line end, the tuple update, the clamp to the file
+    size and the exit test -/
+def loopGen (ls : List Nat) (fileSize chunks chunkSize : Nat) : Nat → Nat → Nat → List (Nat × Nat)
+  | 0, _, _ => []
+  | fuel + 1, start, end_ =>
+    let lineEnd := lineEndAfter 0 ls end_
+    let start' := Gen.ch_next_start fileSize chunks chunkSize start lineEnd
+    let raw := Gen.ch_next_end_raw fileSize chunks chunkSize start lineEnd
+    let end' := Gen.ch_clamp_end fileSize chunks chunkSize start' raw
+    (start, lineEnd) :: (if Gen.ch_done fileSize chunks chunkSize start' end' then [] else loopGen ls fileSize chunks chunkSize fuel start' end')
+
+def splitGen (ls : List Nat) (chunks : Nat) : List (Nat × Nat) :=
+  let fileSize := size ls
+  let chunkSize := Gen.ch_size fileSize chunks 0 0 0
+  loopGen ls fileSize chunks chunkSize (fileSize + 1) 0 (Gen.ch_first_end fileSize chunks chunkSize 0 0)
+
+theorem gen_ch_atoms (fs n cs a b : Nat) :
+    Gen.ch_size fs n cs a b = fs / n ∧ Gen.ch_first_end fs n cs a b = cs ∧ Gen.ch_next_start fs n cs a b = b ∧
+    Gen.ch_next_end_raw fs n cs a b = max b (a + cs + cs) ∧ Gen.ch_clamp_end fs n cs a b = min b fs ∧
+    Gen.ch_done fs n cs a b = decide (a ≥ fs) := by
+  delta Gen.ch_size Gen.ch_first_end Gen.ch_next_start Gen.ch_next_end_raw Gen.ch_clamp_end Gen.ch_done
+  refine ⟨?_, ?_, ?_, ?_, ?_, ?_⟩ <;> first | rfl | omega | grind | (rw [Bool.eq_iff_iff]; atoms_norm; omega)
+
+/-- **Size-based chunking.** `split_file_into_chunks_by_size` with the source's arithmetic is the model's `split` — the function
+    `chunks_cover_exactly_once_at_line_starts` and `chunks_partition_lines` (C18, C17) are about. -/
+theorem gen_chunker (ls : List Nat) (chunks : Nat) : splitGen ls chunks = split ls chunks := by
+  have hl : ∀ (fs cs fuel a b : Nat), loopGen ls fs chunks cs fuel a b = loop ls fs cs fuel a b := by
+    intro fs cs fuel
+    induction fuel with
+    | zero => intros; rfl
+    | succ n ih =>
+      intro a b
+      have h := fun x y => gen_ch_atoms fs chunks cs x y
+      simp only [loopGen, loop, (h _ _).2.2.1, (h _ _).2.2.2.1, (h _ _).2.2.2.2.1, (h _ _).2.2.2.2.2, ih, decide_eq_true_eq]
+  unfold splitGen split
+  simp only [(gen_ch_atoms _ _ _ _ _).1, (gen_ch_atoms _ _ _ _ _).2.1, hl]
+
+end CH
